@@ -142,7 +142,13 @@ Hypothesis Hra47 : forall f, In f all -> a_strip a = true -> fs_ra f < 2 ^ 47.
 (* the CFI walker's sp name is (an alias of) the name the unwinder asks for *)
 Hypothesis Hnames : forall l, reg_valid a (a_sp_name a) (VSome (l ++ [a_cfi_sp_name a; a_cfi_ip_name a])) = true.
 
-Notation oracle := (cfi_correct a base all).
+(* any symbol-file oracle that answers like the correct one on frames of this shape (C06's evaluator on rule text
+   describing the layout is such an oracle; [cfi_correct] itself trivially) *)
+Variable cfi_walk : frame -> option frame -> list Z -> option (regs * list Z).
+Hypothesis Hagree : forall callee gc fwd,
+  r_fp (f_regs callee) = 0 -> r_lr (f_regs callee) = 0 -> r_gp (f_regs callee) = [] ->
+  cfi_walk callee gc fwd = cfi_correct a base all callee gc fwd.
+Notation oracle := cfi_walk.
 Notation walkf := (walk current_code p a os mem module_at max_module_addr oracle instr_valid).
 Notation gcf := (get_caller_frame current_code p a os mem module_at max_module_addr oracle instr_valid).
 Definition vchain : list Z := a_callee_saved a ++ [a_cfi_sp_name a; a_cfi_ip_name a].
@@ -225,7 +231,7 @@ Proof.
     (* the oracle answers with the caller *)
     assert (Eo : oracle callee gc (forwarded a (f_valid callee)) =
                  Some ({| r_ip := fs_ra f; r_sp := base + a_pw a * (total_words done 0 + fs_gap f + 1); r_fp := 0; r_lr := 0; r_gp := [] |}, vchain)).
-    { unfold cfi_correct. rewrite Hsp, Hall.
+    { rewrite (Hagree callee gc _ Hfp Hlr Hgp). unfold cfi_correct. rewrite Hsp, Hall.
       pose proof (lookup_skip done (f :: t) 0 Hgd) as L. cbn [Z.add] in L. rewrite L. cbn [cfi_lookup].
       rewrite Z.eqb_refl. rewrite Hfp, Hlr, Hgp. f_equal. f_equal.
       unfold vchain. destruct Hv as [Hv|Hv]; rewrite Hv; cbn [forwarded]; [reflexivity|].
@@ -661,5 +667,25 @@ Theorem cfi_recovers_gen :
            cfi_chain a (a_callee_saved a ++ [a_cfi_sp_name a; a_cfi_ip_name a]) (ctx_regs ip0 base 0) base 0 fs).
 Proof.
   intros p a os mem ma mm iv base fs ip0 fuel [Ha Hin] Hb Hl Hwf Hm0 Hm H47 Hf.
-  exact (cfi_recovers p a os mem ma mm iv base fs ip0 Ha Hb Hl Hwf Hm0 Hm H47 (cfi_names_ok a Hin) fuel Hf).
+  exact (cfi_recovers p a os mem ma mm iv base fs ip0 Ha Hb Hl Hwf Hm0 Hm H47 (cfi_names_ok a Hin)
+           (cfi_correct a base fs) (fun _ _ _ _ _ _ => eq_refl) fuel Hf).
+Qed.
+
+Theorem cfi_recovers_any :
+  forall p a os mem module_at max_module_addr instr_valid base fs ip0 fuel cfi_walk,
+    cfi_arch a ->
+    m_base mem = base -> mem_len mem = a_pw a * total_words fs 0 ->
+    cfi_wf_layout a base fs = true ->
+    module_at ip0 <> None ->
+    (forall f, In f fs -> module_at (fs_ra f - a_adj a) <> None) ->
+    (forall f, In f fs -> a_strip a = true -> fs_ra f < 2 ^ 47) ->
+    (forall callee gc fwd, r_fp (f_regs callee) = 0 -> r_lr (f_regs callee) = 0 -> r_gp (f_regs callee) = [] ->
+                           cfi_walk callee gc fwd = cfi_correct a base fs callee gc fwd) ->
+    (length fs < fuel)%nat ->
+    walk_stack current_code p a os mem module_at max_module_addr cfi_walk instr_valid fuel (ctx_regs ip0 base 0) VAll
+    = Ret (from_context (ctx_regs ip0 base 0) VAll TContext ::
+           cfi_chain a (a_callee_saved a ++ [a_cfi_sp_name a; a_cfi_ip_name a]) (ctx_regs ip0 base 0) base 0 fs).
+Proof.
+  intros p a os mem ma mm iv base fs ip0 fuel cw [Ha Hin] Hb Hl Hwf Hm0 Hm H47 Hag Hf.
+  exact (cfi_recovers p a os mem ma mm iv base fs ip0 Ha Hb Hl Hwf Hm0 Hm H47 (cfi_names_ok a Hin) cw Hag fuel Hf).
 Qed.
